@@ -21,6 +21,7 @@ import sys
 import warnings
 
 import numpy as np
+from .common import quiet as _quiet
 
 from .common import fbits, v3
 
@@ -212,7 +213,7 @@ class Recorder:
         self._warn = warnings.catch_warnings()
         self._warn.__enter__()
         warnings.simplefilter("ignore")
-        self._err = np.errstate(all="ignore")
+        self._err = _quiet()
         self._err.__enter__()
         return self
 
@@ -501,7 +502,7 @@ def close_cfg(a, b, tol=TOL) -> bool:
 
 def accept_margin(e0, e1, u):
     """relative margin of the accept decision (for numeric_near_tie)"""
-    with np.errstate(all="ignore"):
+    with _quiet():
         f = np.float64(e0) / np.float64(e1)
         if f >= 1 or u is None:
             return abs(float(f) - 1.0)
@@ -749,7 +750,7 @@ def oracle_run(ctx, case, run, ret, n_steps, sim_type, held0, keyprefix="search"
         if report and k % max(1, len(run.steps) // 8) == 0 and run.fixed is not None and run.mobile0_obj is not None:
             try:
                 import gaddlemaps._backend as _B
-                with np.errstate(all="ignore"):
+                with _quiet():
                     fresh = float(_B.Chi2Calculator(np.array(run.fixed, dtype=float), np.array(run.mobile0_obj, dtype=float),
                                                     run.restr)(np.array(st.test_snap, dtype=float)))
                 used = float(st.chi2_new)
